@@ -65,6 +65,16 @@ def main():
     os.makedirs(os.path.join(HERE, 'replays'), exist_ok=True)
 
     from pyvc.verify import verify_contracts, _init
+    # canary: the solver portfolio must refute a false string obligation (with a model) and prove a true one, through
+    # the same discharge() the obligations go through; otherwise nothing this run reports can be believed
+    import z3 as _z3
+    from pyvc import solver as _SV
+    _a, _b = _z3.Strings('canary_a canary_b')
+    _bad = _SV.discharge([_z3.Length(_a) >= 1], _z3.SubString(_z3.Concat(_a, _b), 0, _z3.Length(_a) - 1) == _a, 10.0)
+    _good = _SV.discharge([_z3.Length(_a) >= 1], _z3.SubString(_z3.Concat(_a, _b), 0, _z3.Length(_a)) == _a, 10.0)
+    if _bad.status != 'refuted' or _bad.model is None or _good.status != 'proved':
+        print('CHECKER-FAULT: canary obligations came back %s / %s' % (_bad.status, _good.status))
+        return 3
     budget = 10.0 if args.tier == 'quick' else 60.0
     known = [k for k in load_known() if k['property'] == args.prop]
     try:
